@@ -546,6 +546,9 @@ def scalar_functionals(ctx):
 
 
 def run(ctx, deep=False):
+    import warnings
+    warnings.simplefilter('ignore')   # NumPy RuntimeWarnings at domain boundaries (log 0, x/0)
+    np.seterr(all='ignore')
     rng = ctx.rng
     quick = ctx.quick and not deep
     lines, pend = [], []
